@@ -170,7 +170,6 @@ impl AdjacencyListWeighted<isize> {
         r.decrease() is Some,
         forall|i: int| 0 <= i < r.remaining().len() ==> self.has(u as int, (#[trigger] r.remaining()[i]).0 as int)
             && *r.remaining()[i].1 == self.wt(u as int, r.remaining()[i].0 as int),
-        forall|i: int, j: int| 0 <= i < j < r.remaining().len() ==> (#[trigger] r.remaining()[i]).0 != (#[trigger] r.remaining()[j]).0,
         forall|i: int, j: int| 0 <= i < j < r.remaining().len() ==> (#[trigger] r.remaining()[i]).0 < (#[trigger] r.remaining()[j]).0,
         r.will_return_none() ==>
             forall|v: usize| self.has(u as int, v as int) ==> exists|i: int| 0 <= i < r.remaining().len() && (#[trigger] r.remaining()[i]).0 == v,
@@ -184,12 +183,11 @@ impl AdjacencyListWeighted<isize> {
             // the returned iterator is the tail expression, so the facts about the row's `iter()` item sequence `src` and the
             // mapped item sequence `rem` are stated for every candidate sequence (triggers: terms of the std contracts)
             let m = self.arcs@[u as int]@;
-            assert forall|src: Seq<(&usize, &isize)>, i: int, j: int| #[trigger] src.no_duplicates() && weighted_pairs_of(m, src) && 0 <= i < j < src.len()
-                implies *(#[trigger] src[i]).0 != *(#[trigger] src[j]).0 by { lemma_weighted_pairs_keys_distinct(m, src, i, j); }
-            // ascending: `BTreeMap::iter` promises `increasing_seq` of the key projection of its items
-            assert forall|ks: Seq<&usize>, i: int, j: int| #[trigger] vstd::std_specs::btree::increasing_seq(ks) && 0 <= i < j < ks.len()
-                implies *(#[trigger] ks[i]) < *(#[trigger] ks[j]) by {
-                vstd::std_specs::btree::axiom_increasing_seq_meaning(ks);
+            // ascending: `BTreeMap::iter` promises `increasing_seq` of the key projection `f` of its items
+            assert forall|src: Seq<(&usize, &isize)>, f: spec_fn((&usize, &isize)) -> usize, i: int, j: int|
+                #[trigger] vstd::std_specs::btree::increasing_seq(src.map_values(f)) && 0 <= i < j < src.len()
+                implies f(#[trigger] src[i]) < f(#[trigger] src[j]) by {
+                lemma_weighted_increasing(src.map_values(f), i, j);
             }
             assert forall|src: Seq<(&usize, &isize)>, rem: Seq<(usize, &isize)>, v: usize|
                 #[trigger] src.contains((&v, &m[v])) && #[trigger] rem.len() == src.len()
@@ -203,21 +201,15 @@ impl AdjacencyListWeighted<isize> {
     @*/
 }
 
-/// `src` is a duplicate-free list of (key, value) pairs of `m` (part of the contract of `BTreeMap::iter`)
-spec fn weighted_pairs_of(m: Map<usize, isize>, src: Seq<(&usize, &isize)>) -> bool {
-    &&& src.no_duplicates()
-    &&& forall|i: int| 0 <= i < src.len() ==> m.contains_key(*(#[trigger] src[i]).0) && m[*src[i].0] == *src[i].1
-}
-
-/// distinct positions of such a list carry distinct keys
-proof fn lemma_weighted_pairs_keys_distinct(m: Map<usize, isize>, src: Seq<(&usize, &isize)>, i: int, j: int)
-    requires weighted_pairs_of(m, src), 0 <= i < j < src.len(),
-    ensures *src[i].0 != *src[j].0,
+/// meaning of vstd's `increasing_seq` on usize keys: strictly ascending
+proof fn lemma_weighted_increasing(ks: Seq<usize>, i: int, j: int)
+    requires vstd::std_specs::btree::increasing_seq(ks), 0 <= i < j < ks.len(),
+    ensures ks[i] < ks[j],
 {
-    if *src[i].0 == *src[j].0 {
-        assert(*src[i].1 == *src[j].1);
-        assert(src[i] == src[j]);
-    }
+    broadcast use vstd::laws_cmp::group_laws_cmp;
+    assert(vstd::laws_cmp::obeys_cmp::<usize>());
+    vstd::std_specs::btree::axiom_increasing_seq_meaning(ks);
+    assert(<usize as vstd::std_specs::cmp::OrdSpec>::cmp_spec(&ks[i], &ks[j]) is Less);
 }
 
 /// the walk predicate of C02: at least two vertices and every consecutive pair is an arc
